@@ -11,16 +11,21 @@ PROPS = ["C02", "C03", "C04", "C08", "C09", "C12", "C14", "C18", "C19"]
 VIOL_RE = re.compile(r'^"?MONITOR-VIOLATION (C\d+) @(\d+) (.*?)"?$')
 
 
+def cdir(pkey, root):
+    """the imported project is a SIBLING of the entry project (imports: {S: ../lib}), not a sub-directory of it"""
+    return "app" if pkey == root else "lib"
+
+
 def render(g, invalid=False):
     root = g["root"]
     files = {}
     for pk in g["pkeys"]:
-        d = cfg_suite.pdir(pk, root)
+        d = cdir(pk, root)
         lines = []
         if pk != "_":
             lines.append("name: %s" % pk)
         if pk == root:
-            lines.append("imports:\n  S: sub")
+            lines.append("imports:\n  S: ../lib")
             if invalid:
                 lines.append("bogus_key: 1")
         lines.append("targets:")
@@ -40,8 +45,9 @@ def render(g, invalid=False):
             lines.append("      - paths: [in_%s]" % t["name"])
             for r in t["outs"]:
                 lines.append("      - %s.output" % cfg_suite.render_ref(r))
-            lines.append("    output:")
-            lines.append("      - paths: [out_%s]\n        extensions: [o]" % t["name"])
+            if not t.get("noout"):
+                lines.append("    output:")
+                lines.append("      - paths: [out_%s]\n        extensions: [o]" % t["name"])
         files[cfg_suite.pj(d, "zinoma.yml")] = "\n".join(lines) + "\n"
     return files
 
@@ -66,7 +72,7 @@ def gen_project(rng, k):
                 if p2 == p and p != "_" and rng.random() < 0.3:
                     q = p
                 (outs if (kind != "a" and rng.random() < 0.4) else deps).append({"q": q, "n": n2})
-        ts.append({"proj": p, "name": nm, "kind": kind, "deps": deps, "outs": outs})
+        ts.append({"proj": p, "name": nm, "kind": kind, "deps": deps, "outs": outs, "noout": kind == "b" and rng.random() < 0.3})
     # X.output of an aggregate is invalid: turn such producers into builds
     byid = {t["proj"] + "::" + t["name"]: t for t in ts}
     for t in ts:
@@ -138,7 +144,7 @@ def gen_history(rng, k):
 
 
 def tdir(root_dir, g, t):
-    return os.path.join(root_dir, cfg_suite.pdir(t["proj"], g["root"]))
+    return os.path.join(root_dir, cdir(t["proj"], g["root"]))
 
 
 def observe(root_dir, g):
@@ -148,7 +154,7 @@ def observe(root_dir, g):
         disp = t["name"] if t["proj"] == "_" else t["id"]
         if os.path.exists(os.path.join(d, ".zinoma", disp + ".checksums")):
             state.append(t["id"])
-        if os.path.exists(os.path.join(d, "out_" + t["name"], "f.o")):
+        if not t.get("noout") and os.path.exists(os.path.join(d, "out_" + t["name"], "f.o")):
             out.append(t["id"])
     return sorted(state), sorted(out)
 
@@ -157,7 +163,8 @@ def run_history(h):
     import bb
     d = os.path.join(CACHE, "scratch", "cli_%d_%s" % (os.getpid(), h["id"]))
     shutil.rmtree(d, ignore_errors=True)
-    os.makedirs(os.path.join(d, "sub"))
+    os.makedirs(os.path.join(d, "app"))
+    os.makedirs(os.path.join(d, "lib"))
     g0 = h["graph"]
     for t in g0["targets"]:
         open(os.path.join(tdir(d, g0, t), "in_" + t["name"]), "w").write("v0\n")
@@ -178,7 +185,7 @@ def run_history(h):
         args = (["--clean"] if s["clean"] else []) + s["req"]
         if not args:
             args = ["--clean"]
-        r = bb.run_zinoma(d, args, os.path.join(d, "trace.ndjson"), timeout=20, env={"ZV_RUNLOG": runlog})
+        r = bb.run_zinoma(os.path.join(d, "app"), args, os.path.join(d, "trace.ndjson"), timeout=30, env={"ZV_RUNLOG": runlog})
         if os.path.exists(os.path.join(d, "trace.ndjson")):
             os.unlink(os.path.join(d, "trace.ndjson"))
         ran = [l.strip() for l in open(runlog)] if os.path.exists(runlog) else []
